@@ -12,6 +12,9 @@ preludes = [os.path.join(VERIF, "prelude", p) for p in cfg["prelude"]]
 for feat, extra in cfg.get("prelude_if", {}).items():
     if feat in features:
         preludes += [os.path.join(VERIF, "prelude", p) for p in extra]
+for feat, extra in cfg.get("prelude_unless", {}).items():
+    if feat not in features:
+        preludes += [os.path.join(VERIF, "prelude", p) for p in extra]
 try:
     A = assemble_unit(u, ud, cfg, ex, preludes, canary="--canary" in sys.argv, features=features)
 except Undecided as e:
